@@ -134,7 +134,7 @@ def hit(signature, what, **kw):
 # ---------------------------------------------------------------------------------------------
 # proof stage
 
-_THEOREM_RE = re.compile(r'^\s*(?:protected\s+|private\s+)?theorem\s+([A-Za-z_][\w\.\']*)', re.M)
+_THEOREM_RE = re.compile(r'^\s*(?:protected\s+|private\s+)?theorem\s+([A-Za-z_][\w\.\'\?!]*)', re.M)
 _BANNED = re.compile(r'\b(sorry|admit|native_decide|bv_decide|implemented_by|unsafe)\b|^\s*axiom\s|maxHeartbeats\s+0\b', re.M)
 
 
